@@ -43,10 +43,84 @@ def name_only_closure(lib, clo_name):
     return False, "predicate compares %s" % [term_s(s)[:40] for s in sides]
 
 
+ITER_MAKERS = ("core::slice::iter", "core::slice::iter_mut", "std::iter::IntoIterator::into_iter", "std::vec::Vec::iter", "std::vec::Vec::iter_mut",
+               "std::vec::Vec::as_slice", "std::vec::Vec::as_mut_slice") + mir.TRANSPARENT_CALLS
+ORDER_ONLY = ("std::iter::Iterator::rev",)
+
+
+def peel_iter(t):
+    """(collection term, adapters) of an iterator term: constructors are peeled, anything else is an adapter"""
+    adapters = []
+    t = strip(t)
+    while t[0] == "call" and t[2]:
+        if t[1] in ITER_MAKERS:
+            pass
+        elif t[1].startswith("std::iter::Iterator::") or t[1].startswith("std::iter::DoubleEndedIterator::"):
+            adapters.append(t[1])
+        else:
+            break
+        t = strip(t[2][0])
+    return t, adapters
+
+
 def run(ctx):
     r = ctx.run
     r.explanation = EXPLANATION
     lib = ctx.lib
+    tree_contracts(r, lib)
+    # R16.4 via PM16 (tagged for C01/C03 there; evaluate here under this property)
+    R = pm.Roles(lib)
+    saved = r.prop
+    try:
+        r.prop = "C01"
+        pm.pm16_tree_to_fields(r, R) if R.ok else None
+    finally:
+        r.prop = saved
+    from . import c09, c15, renderer
+    c15.check_merge(r, lib)
+    Rn = renderer.Renderer(lib)
+    if Rn.ok:
+        c09.source_rules(r, Rn)
+    r.trust("Vec::remove(i) removes the element at i; Iterator::position returns the index of the first match")
+    r.assume("children are unique by name before each operation (induction over the operation sequence; base case: Element::new has no children)")
+
+
+TRUNCATING = ("skip", "take", "step_by", "skip_while", "take_while", "nth", "nth_back", "map_while", "advance_by", "array_chunks", "next_chunk")
+
+
+def full_traversal(r, lib):
+    """A11: no iterator over an element's children or attributes is shortened: every consumer of Element.children /
+    Element.attributes (lookups, renderer, identifier map, name hints, demotion) sees the whole list"""
+    n = 0
+    for b in lib.real_bodies():
+        for cs in b.calls():
+            nm = cname(cs.node)
+            m = nm.rsplit("::", 1)[-1]
+            if not (nm.startswith("std::iter::") and m in TRUNCATING) or not cs.node["args"]:
+                continue
+            n += 1
+            src = strip(term_of(b, cs.node["args"][0]))
+            hit = None
+            for st in mir.subterms(src):
+                if st[0] == "proj":
+                    fs = [e for e in st[2] if e != "*" and e[0] == "f" and e[1] == "element::Element" and e[3] in ("children", "attributes")]
+                    if fs:
+                        hit = fs[0][3]
+                if st[0] == "call" and st[1].endswith(("Element::children", "Element::attributes")):
+                    hit = st[1].rsplit("::", 1)[-1]
+            bound = strip(term_of(b, cs.node["args"][1])) if len(cs.node["args"]) > 1 else ("none",)
+            if hit is None and bound[0] == "const" and isinstance(bound[1], int) and not isinstance(bound[1], bool) and \
+                    any(st[0] in ("arg", "local") or (st[0] == "proj") for st in mir.subterms(src)):
+                hit = "data of the crate by the fixed bound %d" % bound[1]
+            r.ob("A11.full-traversal", "%s: %s" % (b.name, m), hit is None, "`%s` shortens an iterator that is not over an element's children/attributes, by a computed bound" % m if hit is None else
+                 "`%s` shortens the traversal of %s: the items beyond it get no field / identifier / demotion / name hint" % (m, hit if hit.startswith("data") else "an element's " + hit), site=cs,
+                 key="A11|%s|%s|%s" % (b.name, m, hit))
+    r.count("shortening iterator adapters inspected", n)
+
+
+def tree_contracts(r, lib):
+    """contracts of the tree operations the parser mechanism (PM pack) and hand-built trees rely on"""
+    full_traversal(r, lib)
     # R16.2 lookups
     lookups = {}
     from .common import look_through_private
@@ -60,6 +134,13 @@ def run(ctx):
                 src = strip(term_of(b, cs.node["args"][0]))
                 over_children = any(_is_children_of(st, ("arg", 1)) for st in mir.subterms(src) if st[0] == "proj")
                 clo = arg_ty(b, cs.node["args"][1]).get("closure")
+                if over_children:
+                    coll, adapters = peel_iter(src)
+                    bad = [a for a in adapters if not (a in ORDER_ONLY and nm.endswith(("::find", "::any")))]
+                    full = _is_children_of(coll, ("arg", 1)) and not bad
+                    r.ob("R16.2.lookup-scans-all-children", b.name, full, "the lookup scans the whole children list" if full else
+                         "the lookup does not scan self.children as a whole (adapters: %s): some children cannot be found" % [a.split("::")[-1] for a in bad], site=cs,
+                         key="R16.2|fullscan|%s" % b.name)
                 if over_children and clo:
                     ok, why = name_only_closure(lib, clo)
                     cap = strip(term_of(b, cs.node["args"][1]))
@@ -218,18 +299,121 @@ def run(ctx):
                 ok = ok and strip(rc[2][1]) == ("arg", 2) and strip(rc[2][0]) == ("arg", 1)
             r.ob("R16.3.optional-preserves-subtree", b.name, ok, "re-inserts Optional(removed.into_inner_t()): the child's whole subtree is kept" if ok else
                  "set_child_optional does not re-insert exactly the removed value", site=ins[0] if ins else mir.line_of(b.span), key="R16.3|preserve")
-    # R16.4 via PM16 (tagged for C01/C03 there; evaluate here under this property)
-    R = pm.Roles(lib)
-    saved = r.prop
-    try:
-        r.prop = "C01"
-        pm.pm16_tree_to_fields(r, R) if R.ok else None
-    finally:
-        r.prop = saved
-    from . import c09, c15, renderer
-    c15.check_merge(r, lib)
-    Rn = renderer.Renderer(lib)
-    if Rn.ok:
-        c09.source_rules(r, Rn)
-    r.trust("Vec::remove(i) removes the element at i; Iterator::position returns the index of the first match")
-    r.assume("children are unique by name before each operation (induction over the operation sequence; base case: Element::new has no children)")
+    _insertion_contracts(r, lib, name_only_fns)
+    _equality_contracts(r, lib)
+
+
+def _insertion_contracts(r, lib, name_only_fns):
+    """R16.1d/R16.5: on the `name absent` outcome add_unique_child appends Mandatory(child) - nothing else decides;
+    set_child_optional's re-insertion depends on nothing but the removal having found the child"""
+    from .common import normal_form
+    CONT = ("core::slice::contains", "std::vec::Vec::contains")
+    for b0 in lib.real_bodies():
+        short = b0.name.rsplit("::", 1)[-1]
+        if short not in ("add_unique_child", "set_child_optional") or lib.fns.get(b0.name, {}).get("impl_self", {}).get("adt") != "element::Element":
+            continue
+        b = normal_form(lib, b0)
+        ins = [cs for cs in b.calls() if cs.node["args"] and method(cs.node) in GROW and is_mut_ref(arg_ty(b, cs.node["args"][0])) and
+               _is_children_of(term_of(b, cs.node["args"][0]), ("arg", 1))]
+        if len(ins) != 1:
+            r.ob("R16.1d.insertion-decided-by-name-only", b0.name, False, "expected one append to self.children, found %d" % len(ins), site=mir.line_of(b0.span), key="R16.1d|%s|count" % short)
+            continue
+        cs = ins[0]
+        okm = method(cs.node) == "push"
+        val = strip(term_of(b, cs.node["args"][1]))
+        extra = []
+        has_main = False
+        for g in guards_of(b, cs.bb):
+            if g[0] == "call" and g[1] in CONT and g[3] is False and _is_children_of(g[2][0], ("arg", 1)) and mir.same_place_term(g[2][1], val):
+                continue        # `!children.contains(&value)`: implied by the absence of the name (R16.7/R16.8)
+            look = None
+            if g[0] == "call" and g[1] in ("std::option::Option::is_some", "std::option::Option::is_none"):
+                look, absent = strip(g[2][0]), (g[1].endswith("is_some") and g[3] is False) or (g[1].endswith("is_none") and g[3] is True)
+            elif g[0] == "enum" and g[1] == "std::option::Option":
+                look, absent = g[2], g[3] == "None"
+            if look is not None and look[0] == "call" and len(look) > 3:
+                path = look[3].node["callee"].get("path")
+                if short == "add_unique_child" and absent and path in name_only_fns and strip(look[2][0]) == ("arg", 1):
+                    has_main = True
+                    continue
+                if short == "set_child_optional" and not absent and path.endswith("Element::<T>::remove_child") and strip(look[2][0]) == ("arg", 1):
+                    has_main = True
+                    continue
+            extra.append(guard_s(g))
+        ok = okm and has_main and not extra
+        r.ob("R16.1d.insertion-decided-by-name-only", b0.name, ok,
+             ("a child whose name is absent is always appended at the end" if short == "add_unique_child" else "a found child is always re-inserted") if ok else
+             "the append to self.children (%s) also depends on %s%s" % (method(cs.node), extra, "" if has_main else " and not on the name lookup"), site=cs, key="R16.1d|%s" % short)
+        if short == "add_unique_child":
+            okv = val[0] == "agg" and val[1] == "necessity::Necessity" and val[2] == "Mandatory" and strip(list(val[3].values())[0]) == ("arg", 2)
+            r.ob("R16.5.added-child-is-mandatory", b0.name, okv, "the new child is stored as Mandatory(child)" if okv else "the new child is stored as %s" % term_s(val)[:60], site=cs,
+                 key="R16.5|mandatory")
+
+
+def _true_requires(r, rule, b, required, what, key):
+    """every way `b` returns true passes `required(call term)` being true"""
+    problems = []
+    n = 0
+    for s in b.sites():
+        if s.si is not None:
+            nd = s.node
+            if nd["k"] != "assign" or nd["place"]["l"] != 0 or nd["place"]["p"]:
+                continue
+            t = strip(term_of(b, nd["rv"]["op"])) if nd["rv"]["k"] == "use" else ("rv", nd["rv"]["k"])
+        elif s.node["k"] == "call" and s.node["dest"]["l"] == 0:
+            t = ("call", cname(s.node), [term_of(b, a) for a in s.node["args"]], s)
+        else:
+            continue
+        n += 1
+        if t[0] == "const" and t[1] in (False, 0, "false"):
+            continue
+        neg = False
+        while t[0] == "unop" and t[1] == "Not":
+            t, neg = strip(t[2]), not neg
+        if t[0] == "call" and required(t) == (not neg):
+            continue
+        g = guards_of(b, s.bb)
+        if any(x[0] == "call" and required(("call", x[1], x[2])) is not None and required(("call", x[1], x[2])) == x[3] for x in g):
+            continue
+        problems.append("%s: returns %s without %s" % (s.loc(), term_s(t)[:50], what))
+    ok = n > 0 and not problems
+    r.ob(rule, b.name, ok, "true is returned only when %s" % what if ok else ("; ".join(problems) or "no result assignment found"), site=mir.line_of(b.span), key=key)
+
+
+def _equality_contracts(r, lib):
+    """R16.7 Element::eq => same name; R16.8 Necessity::eq => equal payloads (membership tests of the insertion helper
+    rely on both: a name that is absent can never compare equal to a stored child)"""
+    def field_of_arg(t, field):
+        t = strip(t, mir.VALUE_PRESERVING)
+        return t[0] == "proj" and t[1][0] == "arg" and [e[3] for e in t[2] if e != "*" and e[0] == "f"] == [field] and t[1][1]
+
+    def payload_of_arg(t, body=None):
+        t = strip(t, mir.VALUE_PRESERVING)
+        if t[0] == "local" and body is not None:
+            # a binding of an or-pattern: every alternative must be the payload of the same argument
+            alts = mir._alternatives(body, t[1], 0, True, frozenset()) or []
+            got = {payload_of_arg(a) for a in alts}
+            return got.pop() if len(got) == 1 else None
+        if t[0] == "call" and t[1] in ("necessity::Necessity::inner_t",) and strip(t[2][0])[0] == "arg":
+            return strip(t[2][0])[1]
+        if t[0] == "proj" and t[1][0] == "arg" and all(e == "*" or e[0] == "dc" or (e[0] == "f" and e[1] == "necessity::Necessity") for e in t[2]):
+            return t[1][1]
+        return None
+
+    def pair(f):
+        def req(t):
+            if t[1] in ("std::cmp::PartialEq::eq", "std::cmp::PartialEq::ne") and len(t[2]) == 2:
+                a, c = f(t[2][0]), f(t[2][1])
+                if a and c and {a, c} == {1, 2}:
+                    return t[1].endswith("::eq")
+            return None
+        return req
+    found = 0
+    for b in lib.real_bodies():
+        if b.name.endswith("as std::cmp::PartialEq>::eq") and b.name.startswith("<element::Element<"):
+            found += 1
+            _true_requires(r, "R16.7.element-equality-implies-same-name", b, pair(lambda t: field_of_arg(t, "name")), "self.name == other.name", "R16.7|eq")
+        if b.name.endswith("as std::cmp::PartialEq>::eq") and b.name.startswith("<necessity::Necessity<"):
+            found += 1
+            _true_requires(r, "R16.8.necessity-equality-implies-equal-payload", b, pair(lambda t, _b=b: payload_of_arg(t, _b)), "the wrapped values are equal", "R16.8|eq")
+    r.ob("R16.7.equality-inventory", "library", found == 2, "PartialEq impls of Element and Necessity inspected: %d" % found, key="R16.7|inventory")
